@@ -17,6 +17,24 @@ SIM_NOTE = ("Trusted base: the simulated kernel / psutil.Popen fake "
             "EPERM, job-control stops. Search never proves absence.")
 
 TABLE = {
+ "C12": dict(
+  engine="E1-simworld", category="exploration", design_ref="DESIGN.md §4 C12",
+  technique="model-based property testing: a configuration model rendered to ini text, generated edit sequences (add/remove/set/revert/no-op) each followed by reloadconfig; oracles = the model, a differential against a fresh Watcher.load_from_config of the same file, and kernel pid sets / logs",
+  text=("After every generated edit + reloadconfig the daemon's list, "
+        "options and live worker counts are compared with the file's model "
+        "and with a fresh load of the same text; unchanged watchers must "
+        "keep their pids, numprocesses-only edits must only add/remove the "
+        "difference, and a no-op reload must cause no spawn or signal."),
+  note=SIM_NOTE + " [circus] and socket sections fixed."),
+ "C15": dict(
+  engine="E1-simworld", category="exploration", design_ref="DESIGN.md §4 C15",
+  technique="model-based property testing: generated add/rm/start/stop/status/reloadconfig sequences over a name pool with case variants and unusual names, against a dict model (lower-cased name -> canonical name); cross-comparison of list, numwatchers, status and stats replies",
+  text=("After each generated request the four directory commands are "
+        "compared with each other and with the model; requests by case "
+        "variant must reach the canonical watcher, removed names must "
+        "disappear (workers gone unless nostop) and be reusable, and an add "
+        "answered ok must be visible."),
+  note=SIM_NOTE),
  "C14": dict(
   engine="E1-simworld", category="fault_enumeration", design_ref="DESIGN.md §4 C14",
   technique="exhaustive enumeration of hook-outcome assignments (4^4 x 2^4 start-phase combinations x worker kind x numprocesses x request; stop-phase and signal-hook products) plus Hypothesis-sampled eight-hook combinations, against a reference table derived from the hook documentation",
